@@ -459,7 +459,7 @@ pub fn run(tier: Tier, seed: u64) -> i32 {
     run.shards = 2;
     run.enumerate("regress", load_regress("C01"), false, case_regress);
     if !run.failed() {
-        run.random("bash", tier.pick(150, 4_000), 500, case);
+        run.random("bash", tier.pick(150, 2_500), 500, case);
     }
     let code = run.finish();
     cleanup_scratch();
